@@ -23,6 +23,8 @@ from typing import Literal, NamedTuple, Optional, Union
 
 import attrs
 
+from harness import framework
+
 _uid = itertools.count()
 _ADDR = __import__("re").compile(r"0x[0-9a-f]+")
 
@@ -807,17 +809,13 @@ def _fc_wrapped_region(dv, pac, rg, rb) -> bool:
             and _all_leaves_shnf(rb[1]))
 
 
+@framework.finding(FC_WRAPPED_SIG)
 def _fc_pred(case) -> bool:
+    """F70"""
     return isinstance(case, dict) and case.get("stream") == "fieldconv" and case.get("region") == FC_WRAPPED_SIG
 
 
 def run_c06_fieldconv(chk, n_classes):
-    from harness import framework
-    framework.FINDING_PREDICATES.setdefault(FC_WRAPPED_SIG, _fc_pred)
-    _run_c06_fieldconv(chk, n_classes)
-
-
-def _run_c06_fieldconv(chk, n_classes):
     """Engine agreement on attrs classes whose attributes carry NON-identity attrs converters and are annotated with
     containers of / wrappers around classes cattrs has no hook for (`list[date]`, `dict[str, Decimal]`,
     `Annotated[list[Money], ...]`, NewTypes ...), next to ordinary attributes with and without converters; both values of
@@ -1060,3 +1058,163 @@ def run_genopts(chk, n_classes, prop):
                             chk.violation(f"C02 oracle (generator-options stream, {mode}): attribute {f['name']} = {getattr(rr[1], f['name'])!r} "
                                           f"does not conform to {describe(f['ty'])} [{desc}]", case)
                             break
+
+
+# ------------------------------------------------------------------------------------------------ hand-written __init__
+CUSTOM_INIT_SIG = "c04-handwritten-init-positional-vs-keyword"
+
+
+@framework.finding(CUSTOM_INIT_SIG)
+def _ci_pred(case) -> bool:
+    """F71"""
+    return isinstance(case, dict) and case.get("stream") == "custom-init" and case.get("region") == CUSTOM_INIT_SIG
+
+
+def run_custom_init(chk, n_classes):
+    """`@define(init=False)` classes with a hand-written `__init__`.  The generated FAST template passes the required
+    attributes POSITIONALLY (in attribute order), the DETAILED template and the interpretive BaseConverter pass
+    everything BY KEYWORD (attribute alias).  Parameters = aliases in attribute order: both agree (checked as an oracle).
+    Parameters renamed, or the same names in another ORDER: finding candidate -- fast accepts what detailed rejects
+    (renamed), or fast silently SWAPS the values (reordered)."""
+    import cattrs
+    r = chk.rng
+    registered = any(f.get("signature") == CUSTOM_INIT_SIG for f in chk.known)
+    for _ in range(n_classes):
+        n = r.randint(1, 3)
+        names = r.sample(["x", "y", "z", "w"], n)
+        n_req = r.randint(1, n)
+        shape = r.choice(["same", "same", "renamed", "reordered"]) if n_req >= 2 else r.choice(["same", "renamed"])
+        params = list(names)
+        if shape == "renamed":
+            params[0] = "value"
+        elif shape == "reordered":
+            params[:n_req] = list(reversed(params[:n_req]))
+        src = ["@attrs.define(init=False)", f"class Ci{next(_uid)}:"]
+        for i, a in enumerate(names):
+            src.append(f"    {a}: int" + ("" if i < n_req else " = 5"))
+        sig = ", ".join(p + ("" if names.index(a) < n_req else "=5") for p, a in
+                        sorted(zip(params, names), key=lambda pa: names.index(pa[1]) >= n_req))
+        src.append(f"    def __init__(self, {sig}):")
+        for p, a in zip(params, names):
+            src.append(f"        self.{a} = {p}")
+        ns = {"attrs": attrs}
+        exec(compile("\n".join(src), "<custom-init>", "exec", dont_inherit=True), ns)
+        cl = [v for k, v in ns.items() if k.startswith("Ci")][0]
+        payloads = [{a: i + 1 for i, a in enumerate(names)}, {a: i + 1 for i, a in enumerate(names[:n_req])},
+                    {a: "7" for a in names}]
+        for ccls in (cattrs.Converter, cattrs.BaseConverter):
+            for p in payloads:
+                rd = _try(lambda: ccls(detailed_validation=True).structure(p, cl))
+                rf = _try(lambda: ccls(detailed_validation=False).structure(p, cl))
+                chk.count("ext:custom-init" + shape + ccls.__name__ + repr(p) + "\n".join(src), sample=None)
+                chk.note("custom-init:" + shape + ":" + rd[0] + "/" + rf[0])
+                od = ("ok", {a: getattr(rd[1], a) for a in names}) if rd[0] == "ok" else ("err",)
+                of = ("ok", {a: getattr(rf[1], a) for a in names}) if rf[0] == "ok" else ("err",)
+                if od == of:
+                    continue
+                case = {"ext": True, "stream": "custom-init", "class": "\n".join(src), "payload": repr(p),
+                        "converter": ccls.__name__, "detailed": repr(rd)[:200], "fast": repr(rf)[:200]}
+                what = (f"C04 oracle (hand-written __init__): {ccls.__name__} structure({p!r}) detailed -> {rd!r:.120}, fast -> {rf!r:.120} "
+                        f"for\n" + "\n".join(src))
+                if shape in ("renamed", "reordered") and ccls is cattrs.Converter:
+                    chk.note("custom-init:finding-region(positional vs keyword)")
+                    if registered:
+                        chk.violation(what, dict(case, region=CUSTOM_INIT_SIG))
+                    continue
+                chk.violation(what, case)
+
+
+def run_genopts_roundtrip(chk, n_classes):
+    """C01 on hooks built with generator options: `make_dict_unstructure_fn` / `make_dict_structure_fn` with the same
+    `_cattrs_use_alias`, `_cattrs_include_init_false` and per-attribute overrides (rename, omit=False) are inverse to each
+    other on classes with private / explicitly aliased / init=False / kw_only / defaulted attributes -- both converter
+    classes, both validation modes.  Implementation-only."""
+    import cattrs
+    from cattrs.gen import make_dict_structure_fn, make_dict_unstructure_fn, override
+    G = ExtGen(chk.rng)
+    r = chk.rng
+    for _ in range(n_classes):
+        cl, fds = _go_class(G)
+        use_alias = r.random() < 0.6
+        iif = r.random() < 0.5
+        ovs = {}
+        for f in fds:
+            c = r.random()
+            if not f["init"] and c < 0.4:
+                ovs[f["name"]] = override(omit=False)
+            elif c < 0.15:
+                ovs[f["name"]] = override(rename="rn_" + f["name"].lstrip("_"))
+        kwargs = {f["attr_alias"]: G.value(f["ty"]) for f in fds if f["init"] and (not f["dflt"] or r.random() < 0.7)}
+        x = cl(**kwargs)
+        included = [f for f in fds if f["init"] or iif or (f["name"] in ovs and ovs[f["name"]].omit is False)]
+        for f in fds:
+            if not f["init"] and f in included and (f["dflt"] or r.random() < 0.8):
+                # an included init=False attribute carries a value of its own (not the default)
+                object.__setattr__(x, f["name"], G.value(f["ty"]))
+        if any(not hasattr(x, f["name"]) for f in included):
+            continue
+        for ccls in (cattrs.Converter, cattrs.BaseConverter):
+            for dv in (True, False):
+                conv = ccls(detailed_validation=dv)
+                un = _try(lambda: make_dict_unstructure_fn(cl, conv, _cattrs_use_alias=use_alias,
+                                                           _cattrs_include_init_false=iif, **ovs))
+                st = _try(lambda: make_dict_structure_fn(cl, conv, _cattrs_use_alias=use_alias,
+                                                         _cattrs_include_init_false=iif,
+                                                         _cattrs_detailed_validation=dv, **ovs))
+                desc = (f"{ccls.__name__}/{'detailed' if dv else 'fast'} {cl.__name__}("
+                        + ", ".join(f["name"] + ": " + describe(f["ty"]) + ("" if f["init"] else " [init=False]")
+                                    + (f" alias={f['attr_alias']}" if f["attr_alias"] != f["name"] else "") for f in fds)
+                        + f") use_alias={use_alias} include_init_false={iif} overrides={sorted(ovs)}")
+                chk.count("ext:genopts-rt" + desc + repr(x), sample=None)
+                chk.note("genopts-roundtrip:" + ("use_alias" if use_alias else "by-name"))
+                case = {"ext": True, "stream": "genopts-roundtrip", "class": desc, "value": repr(x)}
+                if un[0] != "ok" or st[0] != "ok":
+                    chk.violation(f"C01 oracle (generator-options stream): hook creation failed: un={un!r:.100} st={st!r:.100} [{desc}]", case)
+                    continue
+                u = _try(lambda: un[1](x))
+                back = _try(lambda: st[1](u[1], cl)) if u[0] == "ok" else ("err", "unstructure failed")
+                ok = back[0] == "ok" and type(back[1]) is cl and all(
+                    hasattr(back[1], f["name"]) and same(getattr(back[1], f["name"]), getattr(x, f["name"])) for f in included)
+                if not ok:
+                    chk.violation(f"C01 oracle (generator-options stream): round trip of {x!r} gives {u!r:.120} -> {back!r:.120} [{desc}]", case)
+
+
+def run_generic_roundtrip(chk, n_cases):
+    """C01 on parametrised GENERIC attrs classes / dataclasses whose type argument is itself a parametrised type (containers,
+    Optional, Literal of strings / negative numbers / enum members, Annotated): the generated hook is named after the
+    argument.  Implementation-only (the Lean data path has no generic classes; C17 owns their model)."""
+    import enum
+    import cattrs
+    r = chk.rng
+    T = typing.TypeVar("T")
+    E = enum.Enum("GE", {"A": "a", "B": "b"})
+    args = [
+        (int, lambda: r.randint(-3, 9)), (str, lambda: r.choice(["", "a", "zz"])),
+        (list[int], lambda: [r.randint(0, 5) for _ in range(r.randint(0, 2))]),
+        (Optional[int], lambda: r.choice([None, 3])),
+        (dict[str, int], lambda: {k: 1 for k in r.sample(["a", "b", "c"], r.randint(0, 2))}),
+        (tuple[int, ...], lambda: tuple(r.randint(0, 5) for _ in range(r.randint(0, 2)))),
+        (Literal["a", "b-c"], lambda: r.choice(["a", "b-c"])), (Literal[-1, 2], lambda: r.choice([-1, 2])),
+        (Literal[E.A, "x"], lambda: r.choice([E.A, "x"])), (typing.Annotated[int, "meta"], lambda: r.randint(0, 5)),
+        (typing.Annotated[list[str], "m:1"], lambda: [r.choice(["a", "b"])]), (E, lambda: r.choice(list(E))),
+        (list[Literal["p", "q r"]], lambda: [r.choice(["p", "q r"])]),
+    ]
+    for _ in range(n_cases):
+        kind = r.choice(["attrs", "dc"])
+        name = f"Gn{next(_uid)}"
+        if kind == "attrs":
+            cl = attrs.make_class(name, {"x": attrs.field(type=T), "ys": attrs.field(type=list[T], factory=list)}, bases=(typing.Generic[T],))
+        else:
+            cl = dataclasses.make_dataclass(name, [("x", T), ("ys", list[T], dataclasses.field(default_factory=list))], bases=(typing.Generic[T],))
+        arg, gv = r.choice(args)
+        x = cl(gv(), [gv() for _ in range(r.randint(0, 2))])
+        for dv in (True, False):
+            for strat in (cattrs.UnstructureStrategy.AS_DICT,):
+                conv = cattrs.Converter(detailed_validation=dv, unstruct_strat=strat)
+                res = _try(lambda: conv.structure(conv.unstructure(x, unstructure_as=cl[arg]), cl[arg]))
+                chk.count("ext:generic" + kind + repr(arg) + repr(x) + str(dv), sample=None)
+                chk.note("generic-roundtrip:" + res[0])
+                if res[0] != "ok" or type(res[1]) is not cl or not same(res[1].x, x.x) or not same(res[1].ys, x.ys):
+                    chk.violation(f"C01 oracle (generic-class stream): round trip of {x!r} as {cl.__name__}[{arg!r}] "
+                                  f"({kind}, detailed_validation={dv}) gives {res!r:.200}",
+                                  {"ext": True, "stream": "generic", "arg": repr(arg), "kind": kind, "value": repr(x), "got": repr(res)[:300]})
